@@ -57,7 +57,7 @@ def chain(focus, quick_n, thorough_n, blocks=10, props=None, extra=None, extra_q
     t += extra_t or []
     return {"cmd": "chain", "quick": q, "thorough": t, "timeout": 7200}
 
-def app_prop(pid, focus, cats, level_text, level_note, quick_n=48, thorough_n=1500, extra_harness=None, technique=None, extra_q=None, extra_t=None):
+def app_prop(pid, focus, cats, level_text, level_note, quick_n=64, thorough_n=1500, extra_harness=None, technique=None, extra_q=None, extra_t=None):
     PROPS[pid] = {
         "model_targets": APP_MODEL_TARGETS + (extra_harness or {}).get("model_targets", []),
         "harness": [chain(focus, quick_n, thorough_n, props=pid, extra_q=extra_q, extra_t=extra_t)] + (extra_harness or {}).get("harness", []),
@@ -65,7 +65,7 @@ def app_prop(pid, focus, cats, level_text, level_note, quick_n=48, thorough_n=15
         "trusted_base": APP_TRUSTED,
         "assumptions": ["histories are generated (structured random); the theorems, not the histories, carry the universal claim"],
         "level_text": level_text, "level_note": level_note,
-        "technique": technique or "Coq proof (invariants by induction over all operation histories of the executable model) + in-Coq differential replay of real ABCI histories against the model + property monitors on the real application",
+        "technique": technique or "Coq proof (invariants by induction over all operation histories of the executable model) + Go-to-Gallina translation of the modules' keeper / message-server / validation / genesis code regenerated from /repo on every run and proved equal to the model (DESIGN 0.6) + in-Coq differential replay of real ABCI histories against the model + property monitors on the real application",
     }
 
 app_prop("C07", "reg,reggov,mixed", ["wrk", "bcn"],
